@@ -25,9 +25,22 @@ def main():
     except common.Timeout as e:
         print('TIMEOUT in %s: %s' % (a.prop, e))
         sys.exit(2)
-    except Exception:
-        # an internal error of the machinery is not a verdict about the property
+    except Exception as e:
+        tb = traceback.extract_tb(e.__traceback__)
+        src = os.path.join(common.REPO, 'src')
+        in_repo = [f for f in tb if f.filename.startswith(src)]
         traceback.print_exc()
+        if in_repo:
+            # the real code raised at a place where the harness expects it to work (the harness catches the
+            # exceptions the property allows): the property is no longer shown to hold, but no input was pinned down
+            f = in_repo[-1]
+            rep.violation('unexpected-exception/%s/%s' % (type(e).__name__, os.path.basename(f.filename)),
+                          'gepard raised %s: %s at %s:%d (%s) while the check was evaluating it' % (
+                              type(e).__name__, e, os.path.relpath(f.filename, common.REPO), f.lineno, f.name),
+                          dict(traceback=traceback.format_exc()[-3000:]), found_input=False)
+            sys.exit(rep.finish(level='proof', checker_cmd='(aborted by an exception of the code under study)',
+                                trusted=[], explanation='run aborted: ' + repr(e)))
+        # an internal error of the machinery is not a verdict about the property
         print('ERROR: check %s crashed (machinery failure, no verdict)' % a.prop)
         sys.exit(3)
     sys.exit(rc)
